@@ -300,6 +300,11 @@ class DefaultArgsParser(ArgsParser):
 
         option = fmt.get_option(name)
 
+        if option.long_name != name:
+            # The format also finds options by their short name: "--f" is
+            # not the option "-f"
+            raise NoSuchOptionException(name)
+
         if value is False:
             value = None
 
